@@ -15,7 +15,7 @@ Out   == IOEnv.VERIF_OUT
 Depth == IF "VERIF_DEPTH" \in DOMAIN IOEnv THEN atoi(IOEnv.VERIF_DEPTH) ELSE 14
 NS    == 5
 S     == 1 .. NS
-ScalarCl == {"0", "1", "2", "3", "r-1", "r-2", "h", "2^64", "2^128", "2^252", "2^64-1", "2^63", "2^128-1", "2^192-1", "lam", "lam+1", "lam-1", "-lam", "rnd1", "rnd2", "rnd3", "rnd4", "mont:1", "mont:2^64-1", "mont:2^64", "asmont:1", "asmont:-1"}
+ScalarCl == {"0", "1", "2", "3", "r-1", "r-2", "h", "2^64", "2^128", "2^252", "2^64-1", "2^63", "2^128-1", "2^192-1", "lam", "lam+1", "lam-1", "-lam", "rnd1", "rnd2", "rnd3", "rnd4", "mont:1", "mont:2^64-1", "mont:2^64", "asmont:1", "asmont:-1", "2^64+1", "2^128+1", "2^192+1", "2^69+2^5", "2^200+2^8", "3bits"}
 ZCl   == {"2", "p-1", "rnd1", "rnd2"}
 Lists == {<<a>> : a \in S} \cup {<<a, b>> : a \in S, b \in S} \cup {<<a, b, c>> : a \in S, b \in S, c \in S}
          \cup {<<a, b, a, c, b>> : a \in S, b \in S, c \in S} \cup {<<>>}
